@@ -34,13 +34,13 @@ fn s(x: &str) -> String {
     x.to_string()
 }
 
-struct Built {
-    argv: Vec<String>,
+pub struct Built {
+    pub argv: Vec<String>,
     /// output path (file or directory)
-    out: String,
+    pub out: String,
 }
 
-fn build_argv(p: &Params, in_path: &str, alt: Option<&str>, out: &str) -> Built {
+pub fn build_argv(p: &Params, in_path: &str, alt: Option<&str>, out: &str) -> Built {
     let sub = pstr(p, "sub");
     let t = pu64(p, "threads").to_string();
     let mut a = vec![s("kmertools")];
